@@ -23,6 +23,11 @@ PLAN = {
  "C05-m5": ["C05"], "C05-m6": ["C05"], "C07-m5": ["C07"], "C07-m6": ["C07", "C04"], "C11-m5": ["C11", "C14"], "C11-m6": ["C11", "C04"],
  "C12-m5": ["C12", "C04"], "C12-m6": ["C12", "C02"], "C13-m5": ["C13"], "C13-m6": ["C13"], "C19-m5": ["C19", "C05"], "C19-m6": ["C19"],
  "C20-m5": ["C20"], "C20-m6": ["C20", "C04"],
+ # round 4
+ "C01-m5": ["C01", "C16"], "C01-m6": ["C01", "C11"], "C06-m5": ["C06"], "C06-m6": ["C06", "C02"], "C08-m5": ["C08", "C06"], "C08-m6": ["C08"],
+ "C09-m5": ["C09", "C10"], "C09-m6": ["C09"], "C10-m5": ["C10", "C17"], "C10-m6": ["C10", "C16", "C04"], "C14-m5": ["C14", "C02"], "C14-m6": ["C14", "C11"],
+ "C15-m5": ["C15", "C05"], "C15-m6": ["C15", "C05"], "C16-m5": ["C16", "C04"], "C16-m6": ["C16", "C04", "C10"], "C17-m5": ["C17"], "C17-m6": ["C17"],
+ "C18-m5": ["C18"], "C18-m6": ["C18"],
 }
 only = sys.argv[1:]
 path = os.path.join(HERE, "seeded", "detection.json")
@@ -39,6 +44,7 @@ for name, checks in sorted(PLAN.items()):
             if "sig=" in line and not sig:
                 sig = line[line.index("sig="):].split()[0]
         verdict = "caught" if (p.returncode == 1 and "VIOLATION property=%s" % chk in p.stdout) else ("missed" if p.returncode == 0 else "broken(rc=%d)" % p.returncode)
+        res = json.load(open(path)) if os.path.exists(path) else res  # (another runner may have written in the meantime)
         res.setdefault(name, {})[chk] = verdict + (" " + sig if verdict == "caught" else "")
         print(name, chk, res[name][chk], flush=True)
         json.dump(res, open(path, "w"), indent=1, sort_keys=True)
